@@ -613,10 +613,10 @@ class Diagram(cat.Arrow):
                         left @ diagram.inside.cod @ right, diagram.cod)
                     open_bubble.draw_as_wires = True
                     close_bubble.draw_as_wires = True
-                    # Wires can go straight only if types have the same length.
-                    if len(diagram.dom) == len(diagram.inside.dom):
+                    # Wires can go straight only if the types are the same.
+                    if diagram.dom == diagram.inside.dom:
                         open_bubble.bubble_opening = True
-                    if len(diagram.cod) == len(diagram.inside.cod):
+                    if diagram.cod == diagram.inside.cod:
                         close_bubble.bubble_closing = True
                     return open_bubble\
                         >> Id(left) @ self(diagram.inside) @ Id(right)\
